@@ -95,7 +95,8 @@ class TreeReader(pyx12.error_visitor.error_visitor):
 
     def visit_st_pre(self, n):
         self.s += 1
-        d = {'errors': [e[0] for e in n.errors], 'segs': [], 'id': n.trn_set_id, 'ctl': n.trn_set_control_num, 'ack': None}
+        d = {'errors': [e[0] for e in n.errors], 'segs': [], 'id': n.trn_set_id, 'ctl': n.trn_set_control_num, 'ack': None,
+             'se_line': getattr(n, 'cur_line_se', None)}
         self.isas[-1]['gs'][-1]['st'].append(d)
         d['ele'] = self._eles(n, 'st')
         for e in n.errors:
